@@ -38,6 +38,7 @@ fn main() {
             let mix: &'static str = match arg(&args, "--mix").as_deref() {
                 Some("async") => "async",
                 Some("blocking") => "blocking",
+                Some("frozen") => "frozen",
                 _ => "mixed",
             };
             let out = arg(&args, "--out").expect("--out");
